@@ -203,7 +203,7 @@ func (k *c38Kit) publishVerify(archives []*c38Archive) {
 // byteScope: objects whose every byte / every truncation length is enumerated.
 // quick: COMPLETE and the focus Slots of every archive, manifest.json (64 KiB: 256 Slot
 // references) of the "rich" archive only; thorough: additionally manifest.json of every
-// archive and every 16th Slot.
+// archive and more focus Slots (incl. Slots 127, 128 and the last one).
 func (a *c38Archive) byteScope(o c38Object, thorough bool) bool {
 	switch {
 	case o.kind == "marker":
@@ -211,7 +211,7 @@ func (a *c38Archive) byteScope(o c38Object, thorough bool) bool {
 	case o.kind == "archive-manifest":
 		return thorough || a.shape.name == "rich"
 	default:
-		return a.focus[o.slot] || (thorough && o.slot%16 == 15)
+		return a.focus[o.slot]
 	}
 }
 
@@ -243,15 +243,19 @@ func (k *c38Kit) singleMutations(archives []*c38Archive) {
 		n := a.shape.name
 		// B1: every byte of every object in scope x {bit0 flipped, 0xFF}
 		for oi, o := range a.byteObjects(k.thorough) {
-			if !k.mine(oi) || k.timeUp() {
+			orig := a.body(o.key)
+			big := len(orig) > 4096 // big objects (manifest.json) are split between shards by 1 KiB block
+			if (!big && !k.mine(oi)) || k.timeUp() {
 				continue
 			}
-			orig := a.body(o.key)
 			mut := c38Clone(orig)
 			nObjs++
 			for off := range orig {
 				if off&0xff == 0 && k.timeUp() {
 					break
+				}
+				if big && !k.mine(oi+off>>10) {
+					continue
 				}
 				if !k.thorough && len(orig) > 4096 && !(off < 2048 || off >= len(orig)-512 || off%17 == 0) {
 					continue // quick: 64 KiB manifest.json: head (fields + first Slot references), tail, stride 17
@@ -270,10 +274,11 @@ func (k *c38Kit) singleMutations(archives []*c38Archive) {
 		}
 		// B2: object deleted / truncated / extended / doubled / emptied
 		for oi, o := range a.objects {
-			if !k.mine(oi) || k.timeUp() {
+			orig := a.body(o.key)
+			big := len(orig) > 4096
+			if (!big && !k.mine(oi)) || k.timeUp() {
 				continue
 			}
-			orig := a.body(o.key)
 			focus := o.slot < 0 || a.focus[o.slot]
 			full := a.byteScope(o, k.thorough)
 			if !full && !focus && !k.thorough {
@@ -289,7 +294,6 @@ func (k *c38Kit) singleMutations(archives []*c38Archive) {
 				}
 				continue
 			}
-			k.mustFail(e, sec, a, "deleted", o.kind, n+"|deleted|"+o.key, []c38Edit{{key: o.key, del: true}})
 			var lens []int
 			switch {
 			case full && (k.thorough || len(orig) <= 4096):
@@ -306,8 +310,15 @@ func (k *c38Kit) singleMutations(archives []*c38Archive) {
 				lens = []int{0, 1, len(orig) / 2, len(orig) - 1}
 			}
 			for _, l := range lens {
+				if big && !k.mine(oi+l>>10) {
+					continue
+				}
 				k.mustFail(e, sec, a, "truncated", o.kind, fmt.Sprintf("%s|truncated|%s|%d", n, o.key, l), []c38Edit{{key: o.key, body: orig[:l:l]}})
 			}
+			if big && !k.mine(oi) {
+				continue
+			}
+			k.mustFail(e, sec, a, "deleted", o.kind, n+"|deleted|"+o.key, []c38Edit{{key: o.key, del: true}})
 			for _, x := range []byte{0x00, '\n', ' ', 0xFF, '}'} {
 				k.mustFail(e, sec, a, "extended", o.kind, fmt.Sprintf("%s|extended|%s|%02x", n, o.key, x), []c38Edit{{key: o.key, body: append(c38Clone(orig), x)}})
 			}
@@ -458,7 +469,7 @@ func (k *c38Kit) singleMutations(archives []*c38Archive) {
 	k.r.Count("single_mutation_byte_objects", nObjs)
 	e.Done(!k.capped, map[string]any{
 		"archives":        len(archives),
-		"byte_mutations":  "every byte x {bit0 flipped, 0xFF} of: COMPLETE and every Slot manifest and chunk of the focus Slots of every archive; manifest.json (64 KiB) of the 'rich' archive at offsets <2048, the last 512 and every 17th (thorough: every byte of manifest.json of every archive, more focus Slots incl. the last one, every 16th Slot)",
+		"byte_mutations":  "every byte x {bit0 flipped, 0xFF} of: COMPLETE and every Slot manifest and chunk of the focus Slots of every archive; manifest.json (64 KiB) of the 'rich' archive at offsets <2048, the last 512 and every 17th (thorough: every byte of manifest.json of every archive, more focus Slots incl. Slots 127, 128 and the last one)",
 		"object_level":    "quick: archive 'min': every object of all 256 Slots deleted, every 16th Slot also last byte cut / +1 byte 00; other archives every 64th Slot; thorough: every object of every archive deleted, cut to {0,1,half,len-1}, +1 byte {00,0a,20,ff,7d}, doubled; objects in byte scope: every truncation length (quick: stride 61 + last 256 lengths for objects > 4 KiB), +1 byte x5, doubled, space-prefixed",
 		"pairs":           "all ordered pairs of focus objects + neighbouring Slots' manifests/first chunks (quick: every 64th Slot): bytes stored under the other key, and swapped",
 		"order":           "every non-identity permutation of a focus Slot's chunk references (manifest re-encoded) and of its chunk objects",
@@ -1088,8 +1099,8 @@ func TestVerifC38(t *testing.T) {
 	if k.shardI == 0 {
 		run("publish-verify", k.publishVerify)
 	}
-	run("single-mutation", k.singleMutations)
 	run("resigned", k.resigned)
 	run("decoders", k.decoders)
+	run("single-mutation", k.singleMutations)
 	r.Count("max_verify_alloc_bytes", int64(k.maxVerifyAlloc))
 }
